@@ -1,4 +1,5 @@
 import VivModel.Proto
+import VivModel.Generated
 import VivProofs.SchedRun
 /-!
 # C13 — parallel processes are transparent and always shut down cleanly
@@ -26,6 +27,17 @@ pickling of arguments and results.
 -/
 namespace VivProps.C13
 open Viv.Proto
+
+/-- the three requests the engine sends a process (`Ev.askTs`, `Ev.askCond`, `Ev.invoke` of the
+scheduler model) are commands the worker loop of the source understands (`Process.METHOD_COMMANDS`,
+extracted), `end` is handled by the wrapper itself and is none of them, and the attribute commands
+are disjoint from the method commands — so `Cmd.run name` of the protocol model stands for commands
+that exist -/
+theorem engine_requests_are_commands :
+    "calculate_timestep" ∈ Viv.Generated.methodCommands ∧ "update_condition" ∈ Viv.Generated.methodCommands ∧
+    "next_update" ∈ Viv.Generated.methodCommands ∧ "end" ∉ Viv.Generated.methodCommands ∧
+    (∀ a ∈ Viv.Generated.attrReadCommands ++ Viv.Generated.attrWriteCommands,
+      a ∉ Viv.Generated.methodCommands) := by decide
 
 /-- nothing pending, pipes empty, worker running -/
 def Idle (s : S) : Prop :=
